@@ -1,0 +1,15 @@
+//go:build verif
+
+// Contracts for package namespace (comment-only; build tag verif).
+
+package namespace
+
+//@ func Manager.GetNamespaceByName
+//@   trusted
+//@   pure
+//@   ensures result1 == nil ==> result0 != nil
+
+//@ func Manager.Namespaces
+//@   trusted
+//@   pure
+//@   ensures result1 == nil ==> forall i in 0..len(result0) :: result0[i] != nil
